@@ -238,7 +238,7 @@ def finish(mod, modname, pid, tier, seed, repo, t0, results, skipped, heavy, n_j
             for r, v in lst[:4]:
                 if v["model"] is None:
                     continue
-                path = common.write_replay(pid, modname, r["params"], v["model"], v["name"], heavy)
+                path = common.write_replay(pid, modname, r["params"], v["model"], v["name"], heavy, expect=(v.get("info") or {}).get("type"))
                 rc, outp = common.run_replay(path, repo)
                 if rc == 1:
                     if sig in known_sigs:
